@@ -138,9 +138,13 @@ def run_inprocess(case, wd, tag='x', serial=True, cpus=1, extensions=None, stdou
     return run
 
 
-def run_cli(case, wd, tag='c', cpus=1, env=None, launcher=None, timeout=600, stdout_output=False, console_script=False):
-    """M-cli: the real entry point in a subprocess."""
-    rp, qp = write_inputs(case, wd, tag)
+def run_cli(case, wd, tag='c', cpus=1, env=None, launcher=None, timeout=600, stdout_output=False, console_script=False,
+            in_tag=None):
+    """M-cli: the real entry point in a subprocess. in_tag: reuse input files written under that tag."""
+    if in_tag and os.path.exists(os.path.join(wd, in_tag + '_r.cmap')):
+        rp, qp = os.path.join(wd, in_tag + '_r.cmap'), os.path.join(wd, in_tag + '_q.cmap')
+    else:
+        rp, qp = write_inputs(case, wd, in_tag or tag)
     op = os.path.join(wd, tag + '_o.xmap')
     _clean(op)
     run = Run()
@@ -195,5 +199,5 @@ def parsed_inputs(case):
 def slim_case(case):
     """A replayable, explicit copy of a pipeline case (no work directory, no derived state)."""
     keep = ('refs', 'queries', 'ref_text', 'query_text', 'params', 'mode', 'extra_argv', 'qclass', 'truth', 'kind',
-            'gen', 'focus', 'decisions', 'ordinary', 'flavour', 'special', 'mm_seed')
+            'gen', 'focus', 'decisions', 'ordinary', 'flavour', 'special', 'mm_seed', 'sched_seed', 'mirror_pairs')
     return {k: case[k] for k in keep if k in case}
